@@ -9,15 +9,39 @@ TRUST = "Trusted base: the Go runtime/toolchain, the monitor code in /verif itse
 
 # id -> (category, technique, level text, level note, design section)
 CHECKS = {
+ "C02": ("exploration", "runtime monitoring: crash-isolated worker processes with a write-ahead log of the input in flight; Go panics recovered and fatal errors attributed by the parent; step hook as budget-overrun monitor",
+         "Hostile workloads (adversarial source shapes up to 64 KiB, EOF truncations, byte/token/line mutants of the repository corpus under sampled FileOptions; direct calls of every enumerated callable with edge-pool arguments; random cyclic value graphs under str/repr/==/</hash/json.encode/sorted/in/freeze) run in child processes; any panic, fatal error or budget overrun is a violation attributed to its input. Held means no crash on the inputs generated; the space is unbounded and only sampled.",
+         TRUST + "Out-of-memory fatals and makeslice panics on operands with Len >= 2^31 are excluded as the property's 'single huge allocation'; calls that exceed the wall-clock guard are counted, not judged.", "§5 C02"),
  "C06": ("fault_enumeration", "runtime monitoring: invariant hooks (VerifState itercount/frozen) + Iterate/Done balance counters on host iterables, over an enumerated construct x exit-path x step-limit matrix",
          "Every cell of {list,dict,set} x iterating construct x exit path (incl. host panic and step-limit cancellation at sampled/every step index) x nesting is executed on the real VM; in-iteration probes attack the collection with every discovered effective mutator; post-conditions read the lock counter through the hook. Held means: no cell of the enumerated matrix violated; it says nothing about constructs or built-ins not in the matrix (new ones are discovered automatically by probing AttrNames/Universe).",
          TRUST + "Mutator discovery finds a mutator only if one of the probed argument tuples changes a 3-element collection.", "§5 C06"),
  "C07": ("fault_enumeration", "runtime monitoring: step hook as logical clock, deterministic cancellation injection at instruction k, porcupine linearizability check of Cancel/Uncancel/exec histories, race detector on the async arm",
          "For a corpus of terminating and non-terminating programs every step limit N (sampled in quick, all in thorough), every built-in call as cancellation site, and every instruction as asynchronous cut point (hook-injected) is exercised and judged in interpreter steps (never wall time); Cancel/Uncancel/exec sequences are enumerated exhaustively up to length 6 and concurrent histories are checked against a set-if-empty register.",
          TRUST + "porcupine v1.3.0; Go race detector; the corpus programs stand for 'all programs' only in the opcodes/constructs they execute (listed in evidence).", "§5 C07"),
+ "C08": ("exploration", "runtime monitoring: two reference-model oracles (an independent binder written from the spec, and CPython) judging every (signature, call) execution; exhaustive enumeration of the stated signature x call product in the thorough tier; sentinel monitors on UnpackArgs targets",
+         "280 signatures x the full call product (thorough: 29.5M pairs, exhaustive in the stated bounds; quick: 150 sampled calls per signature) executed from source (CALL/CALL_VAR/CALL_KW/CALL_VAR_KW) and through starlark.Call; UnpackArgs/UnpackPositionalArgs specs x call shapes x argument types judged against an independent contract model with untouched-target sentinels.",
+         TRUST + "CPython 3.11 argument binding; the independent binder.", "§5 C08"),
+ "C10": ("exploration", "runtime monitoring: exact-arithmetic reference oracle (math/big, IEEE-754 bit rules) + algebraic identity monitors + CPython second oracle, run in two process configurations (address-space Int and fallback Int via ulimit -v) whose result digests must agree",
+         "Operators, conversions, formatting, literals, range/enumerate/len/repetition and math.floor/ceil/round over boundary and random operands (to 2^200), through the Go API and through source text, in both Int representations.",
+         TRUST + "math/big; CPython on a sample; the third Int representation (int_generic.go, 32-bit) cannot be executed in this VM.", "§5 C10"),
+ "C11": ("exploration", "runtime monitoring: law monitors (reflexive/symmetric/transitive ==, != negation, equal => equal hash and interchangeable as key, trichotomy, transitivity of <, sort/min/max laws) over all pairs and triples of a value pool, with an independent expected order",
+         "All pairs of a 480/900-value pool and all triples of a 72/180-value sub-pool, plus random sort inputs; both Int representations in thorough.",
+         TRUST + "the independent order model (big.Rat for numbers, bytewise strings, lexicographic sequences).", "§5 C11"),
+ "C13": ("exploration", "runtime monitoring: CPython as reference oracle behind a spec-deviation adapter, plus an independent Go slice/index oracle written from the spec; exhaustive (start, stop, step) enumeration for short receivers",
+         "Index/slice triples exhaustively for lengths <= 5 (quick) / <= 8 (thorough) over five sequence types; dense enumeration of string/bytes/list methods and sequence built-ins over 3-letter alphabets; random receivers to length 40; each case evaluated through the Go API and through source text.",
+         TRUST + "CPython 3.11 string/list semantics; the adapter encodes only deviations stated in doc/spec.md or fixed by the repository's own test corpus (listed in DESIGN).", "§5 C13"),
+ "C15": ("exploration", "runtime monitoring: inverse-law oracle (Eval(repr(v)) == v with same types, str(s) == s, Quote/unquote inverse) over enumerated code points / byte pairs and generated values; watchdogged printing of cyclic values",
+         "Thorough is exhaustive over all 1 112 064 scalar code points and all 65 536 byte pairs; plus ints to 2^300, finite floats by bit pattern, containers to depth 6 with sharing, nine cyclic graph shapes.",
+         TRUST + "structural comparison in the monitor; a cyclic print that does not return within the watchdog is inconclusive, never a violation.", "§5 C15"),
+ "C18": ("exploration", "runtime monitoring: reference oracles (encoding/json, an independent RFC 8259 recogniser, CPython json) judging every encode output and every decoded document; grammar-driven document generator with single-token corruptions",
+         "Generated values (depth <= 6, ints to 2^200, arbitrary Unicode) round-tripped through encode/decode; generated valid documents compared with the reference data model; 39 corruption classes must be rejected; default= semantics; indent.",
+         TRUST + "encoding/json, CPython json and the in-tree recogniser must agree among themselves on a document before it is judged.", "§5 C18"),
  "C19": ("exploration", "runtime monitoring: reference-model oracle (exact int64-ns arithmetic in math/big keyed by ordered operand kinds) + algebraic law monitors over generated operand pairs, five evaluation paths",
          "All 16x12 ordered (kind, op, kind) cells with a time/duration operand are evaluated through API, compiled function, augmented assignment, source expression and constructor-built operands and compared with an independent operator table; round-trip/order/hash/zone laws are checked on random and boundary instants.",
          TRUST + "math/big; Go's time package for zone rules; undocumented roundings are accepted either way (see DESIGN §5 C19).", "§5 C19"),
+ "C20": ("exploration", "runtime monitoring: boundary-matrix oracle (per-kind range table), reflective type/range invariant walk of the underlying protoreflect message after every operation, and an offline shadow model of storage aliasing over recorded histories (frozen-snapshot comparison)",
+         "Full matrix kinds x positions x routes x 78 boundary values on dynamically built proto2/proto3 descriptors; random histories of construct/assign/alias/copy/freeze/mutate; corrupted-bytes decoding; extension fields.",
+         TRUST + "protobuf-go's protoreflect/proto.Equal; dynamicpb messages only (no generated types).", "§5 C20"),
 }
 
 PENDING_REASON = "engine not yet landed in this commit (work in progress; it will be claimed once its monitor is silent on the unchanged tree)"
